@@ -1985,3 +1985,7 @@ def _fetch_many_case(E, mode, q, name, expect_cas, oneshot):
                          z3.BoolVal(False), func=q, meta={"iterable": "one-shot" if oneshot else "re-iterable"})
         else:
             E.oblige("%s/post@raise(BaseException:Sync)%s" % (sid, E.case_suffix), s, sync(E, s, me), func=q)
+
+
+from pyvc.sym import guard_units as _guard_units
+_guard_units(globals())
